@@ -33,6 +33,7 @@ static REDIRECTS: AtomicU64 = AtomicU64::new(0);
 static RECORDS_CHECKED: AtomicU64 = AtomicU64::new(0);
 static EITHER: AtomicU64 = AtomicU64::new(0);
 static NEXT_PORT: AtomicU64 = AtomicU64::new(30000);
+static WAVE: Mutex<Option<Arc<shuttle::sync::Barrier>>> = Mutex::new(None);
 /// incremented before and after every user-space map edit: a connect during which it moved overlapped an edit
 static EDIT_SEQ: AtomicU64 = AtomicU64::new(0);
 
@@ -97,15 +98,27 @@ fn gen_plan(seed: u64, tier: &str) -> Value {
             threads.push(json!({"tgid": tgid, "tid": this_tid, "uid": uid, "gid": gid, "connects": connects}));
         }
     }
+    // a fifth of the workloads: a wave - many threads that are all between the two hook points at the same time (each
+    // passes connect4, waits for the others, then reaches tcp_connect); the pending-connect map has to hold them all
+    let wave = r.chance(1, 5);
+    if wave {
+        threads.clear();
+        let n = *r.pick(&[17u64, 17, 24, 33, 64, 200]);
+        for k in 0..n {
+            let (ip, port) = *r.pick(&[WIRE, IMDS, GA, IMDS]);
+            let uid = *r.pick(&[0u64, 1000, 33]);
+            threads.push(json!({"tgid": 2000 + k / 4, "tid": 9000 + k, "uid": uid, "gid": *r.pick(&[0u64, 1000, 27]), "connects": [{"ip": ip.to_string(), "port": port, "proto": IPPROTO_TCP, "family": AF_INET, "consume": true}]}));
+        }
+    }
     let mut edits = Vec::new();
-    for _ in 0..r.below(6) {
+    for _ in 0..if wave { 0 } else { r.below(6) } {
         edits.push(json!({"ep": *r.pick(&["wire", "imds", "ga"]), "redirect": r.chance(1, 2)}));
     }
     // (the skip map only ever receives the agent's own pid, at start-up: it is not edited concurrently)
     json!({
-        "scenario": "ebpf:C06", "seed": seed, "threads": threads, "edits": edits,
+        "scenario": "ebpf:C06", "seed": seed, "threads": threads, "edits": edits, "wave": wave,
         "scheduler": *r.pick(&["random", "random", "pct"]), "pct_depth": 1 + r.below(4),
-        "iterations": if tier == "thorough" { 400 } else { 100 },
+        "iterations": if wave { if tier == "thorough" { 20 } else { 6 } } else if tier == "thorough" { 400 } else { 100 },
     })
 }
 
@@ -183,6 +196,10 @@ fn run_thread(w: &World, t: &Value) {
         let redirected = (new_ip, new_port) != (ip, port);
         let src_port = NEXT_PORT.fetch_add(1, Ordering::SeqCst) as u16;
         shuttle::thread::sleep(std::time::Duration::from_millis(0));
+        let wave_barrier = WAVE.lock().unwrap().clone(); // (the guard must be gone before this thread yields)
+        if let Some(b) = wave_barrier {
+            b.wait();
+        }
         // ---- hook 2: kprobe on tcp_connect (every TCP socket, whatever the family)
         if proto == IPPROTO_TCP {
             let sk = SockCommon { daddr: ctx.user_ip4, dport: ctx.user_port as u16, num: src_port, family: family as u16 };
@@ -257,6 +274,7 @@ fn run_thread(w: &World, t: &Value) {
 
 fn scenario(plan: Value) {
     ITER.fetch_add(1, Ordering::SeqCst);
+    *WAVE.lock().unwrap() = if plan["wave"] == true { Some(Arc::new(shuttle::sync::Barrier::new(plan["threads"].as_array().map(|a| a.len()).unwrap_or(1)))) } else { None };
     let w = match setup(&plan) {
         Ok(w) => Arc::new(w),
         Err(e) => {
